@@ -325,13 +325,20 @@ def rule_inv_arith(ctx):
             where[key] = (nid, t.get('line'))
             tkey[key] = '%s|%s' % (kind, ','.join(tkinds))
     twant = table.get('type_level', {})
+    # sites per type-level form (all field-level keys of that form together): a rename / move keeps this number, a NEW unchecked operation of
+    # the same integer types raises it
+    tl_total = Counter()
+    for key, n in found.items():
+        tl_total[tkey[key]] += n
+    tl_reviewed = table.get('type_level_counts', {})
     for key, n in sorted(found.items()):
         ent = want.get(key)
         if ent is None and (tkey[key] in twant or tkey[key] in want):
             # the same arithmetic on a renamed / moved field: reviewed at type level
             src_ = twant.get(tkey[key], tkey[key])
-            ent = dict(want[src_])
-            ent['reason'] = 'type-level form of reviewed `%s`: %s' % (src_, ent['reason'])
+            if tl_total[tkey[key]] <= tl_reviewed.get(tkey[key], 0):
+                ent = dict(want[src_])
+                ent['reason'] = 'type-level form of reviewed `%s` (%d site(s) of this form, %d reviewed): %s' % (src_, tl_total[tkey[key]], tl_reviewed.get(tkey[key], 0), ent['reason'])
         nid, line = where[key]
         if ent is None:
             r.instance(site=key, count=n, discharged=None)
@@ -345,6 +352,7 @@ def rule_inv_arith(ctx):
     if stale:
         r.notes.append('table entries no longer matched (harmless): %s' % stale)
     r.notes.append('%d sites discharged automatically, %d by table' % (auto, sum(found.values())))
+    r.notes.append('type-level totals: %s' % dict(sorted(tl_total.items())))
     r.require_floor(25, 'arithmetic assert sites')
     return r
 
@@ -660,8 +668,10 @@ def rule_ptr_guarded_call(ctx):
                 # structural exception: every unguarded node is an element of the node lists returned by the admission scan of the same step
                 # (obtained from this deque's own traversal under the exclusive borrow / deques mutex; nothing but identity-guarded victims is
                 # freed in between -- STALE-removal)
+                # (only for MOVING a node: a node may be freed only through the entry that owns the pointer, which clears it -- an entry that
+                # has left the map but is still referenced by a queued op keeps pointing at its node)
                 nodes = per_node[(op, line)]
-                if nodes and all(_from_admission(ctx, c, nd_) for nd_ in nodes):
+                if op in R.move and op not in (R.free | R.unlink_node) and nodes and all(_from_admission(ctx, c, nd_) for nd_ in nodes):
                     exc = {'reason': 'node taken from the node lists returned by the admission scan in the same maintenance step'}
             r.instance(caller=c, operation=op.split('::')[-1], paths=len(gs), guarded_on_all=ok, exception=exc['reason'] if (exc and not ok) else None)
             if not ok and not exc:
